@@ -24,7 +24,7 @@ def budget(tier):
 
 @st.composite
 def _case(draw):
-    prof = S.profile(dep_only_file=0.2, max_methods=5, max_services=2, p_http=0.4, p_sig=0.15, p_routing=0.1, p_paged=0.75, p_lro=0.03,
+    prof = S.profile(dep_only_file=0.2, services_in_subpackages=True, max_methods=5, max_services=2, p_http=0.4, p_sig=0.15, p_routing=0.1, p_paged=0.75, p_lro=0.03,
                      p_stream=0.05, p_dep_io=0.08, p_comment=0.03, max_messages=4, max_fields=5, p_resource=0.1,
                      max_files=2, paged_variants=True)
     api = draw(S.apis(prof))
